@@ -1,5 +1,6 @@
 /* Harnesses for the backend-independent XML import code (C06): the backend is the executable contract of the state API. */
-static const char *attr_pool[] = { "nbobjs", "type", "indexing", "kind", "name", "length", "value", "encoding", "zz", "cpuset", "forced_efficiency" };
+static const char *attr_pool[] = { "nbobjs", "type", "indexing", "kind", "name", "length", "value", "encoding", "zz", "cpuset", "forced_efficiency",
+                                  "target_obj_gp_index", "target_obj_type", "initiator_cpuset", "initiator_obj_gp_index", "initiator_obj_type" };
 static const char *tag_pool[] = { "info", "indexes", "u64values", "zz" };
 #define NPOOL(a) (sizeof(a) / sizeof(*(a)))
 static int honor_length;           /* get_content: 1 = a delivered content has exactly the expected length (what both backends guarantee) */
@@ -118,5 +119,21 @@ void hp_xml_import_cpukind(void)
   __CPROVER_assert(r == 0 || r == -1, "returns 0 or -1");
   __CPROVER_assert(verif_bm_allocs <= 1 && verif_bm_released == verif_bm_allocs, "the cpuset is allocated at most once and released exactly once (freed or handed to the core)");
   __CPROVER_assert(verif_register_calls <= 1 && verif_infos_freed <= 1, "at most one registration, the info list is released at most once");
+  VERIF_CANARY();
+}
+
+
+/* hwloc__xml_import_memattr_value for ANY attributes the backend may deliver and any attribute flags: memory safe, 0/-1,
+ * hwloc_internal_memattr_set_value is called at most once and only with a valid target type and a well-formed initiator,
+ * and an initiator cpuset is released exactly once (set_value copies it) */
+void hp_xml_import_memattr_value(void)
+{
+  static struct hwloc_topology topo; int r; unsigned long flags = nondet_ulong(); hwloc_memattr_id_t id = nondet_unsigned();
+  VERIF_GHOSTS();
+  mk_backend(); attrs_left[0] = 6;
+  r = hwloc__xml_import_memattr_value(&topo, id, flags, &st0);
+  __CPROVER_assert(r == 0 || r == -1, "returns 0 or -1");
+  __CPROVER_assert(verif_setvalue_calls <= 1 && (r == 0) == (verif_setvalue_calls == 1), "a value is stored exactly when the element is accepted");
+  __CPROVER_assert(verif_bm_allocs <= 1 && verif_bm_released == verif_bm_allocs, "an initiator cpuset is released exactly once");
   VERIF_CANARY();
 }
